@@ -116,6 +116,42 @@ def run(p):
             p.check(r == exp, f'llh2xyz-angle-args:{cls}', 'angle_args', [cls, lat, lon], r, exp)
             p.check(math.dist(r, base) <= 1e-6, f'llh2xyz-angle-args-value:{cls}', 'angle_args', [cls, lat, lon], r, base)
 
+    # the coordinate classes (observed at CoordGeo.cart() and CoordCart.geo()): same two clauses, for every ellipsoid and for every
+    # notation the geographic result can be asked in
+    import geodepy.coord as CO
+    NOTATIONS = [('default', None), ('float', float), ('DEC', A.DECAngle), ('HP', A.HPAngle), ('GON', A.GONAngle),
+                 ('DMS', A.DMSAngle), ('DDM', A.DDMAngle)]
+    for _ in range(p.n(500, 8000)):
+        ell = gens.ellipsoid(rng)
+        lat, lon = rng.uniform(-90, 90), rng.uniform(-180, 180)
+        h = rng.uniform(-1e4, 4e7) if rng.random() < 0.2 else rng.uniform(-1e4, 1e4)
+        x, y, z = (float(v) for v in closed_form(lat, lon, h, ell.semimaj, ell.inversef))
+        nname, notation = rng.choice(NOTATIONS)
+        inp = [x, y, z, ell.semimaj, ell.inversef, nname]
+        call = (f'CoordCart({x!r}, {y!r}, {z!r}).geo(Ellipsoid({ell.semimaj!r}, {ell.inversef!r})'
+                + ('' if notation is None else f', notation={nname}') + ').cart(same ellipsoid)')
+        p.case('coord_classes', inp)
+
+        def via_classes():
+            cc = CO.CoordCart(x, y, z)
+            g = cc.geo(ell) if notation is None else cc.geo(ell, notation)
+            c2 = g.cart(ell)
+            return g, (c2.xaxis, c2.yaxis, c2.zaxis)
+        ok, r = p.guarded('coord-classes-raise', 'coord_classes', inp, via_classes, call)
+        if not ok:
+            continue
+        g, back = r
+        d = math.dist(back, (x, y, z))
+        # the notations hold seconds to 1e-9 (HP) or are float arithmetic on the degrees: below 1e-12 deg, 0.1 um on the ground
+        p.check(d <= 2e-5 + 1e-6, f'coord-classes-roundtrip:{nname}', 'coord_classes', inp, d, '<= 2e-5 m', call)
+        glat = g.lat if isinstance(g.lat, float) and not hasattr(g.lat, 'dec') else g.lat.dec()
+        p.check(abs(float(glat) - lat) <= 1e-9 and abs(g.ell_ht - h) <= 1e-4 * max(1.0, abs(h) / 1e6), f'coord-classes-geo:{nname}',
+                'coord_classes', inp, [float(glat), g.ell_ht], [lat, h], call)
+        c1 = CO.CoordGeo(lat, lon, h).cart(ell)
+        d1 = math.dist((c1.xaxis, c1.yaxis, c1.zaxis), (x, y, z))
+        p.check(d1 <= 1e-6, 'coord-classes-cart', 'coord_classes', inp, d1, '<= 1e-6 m',
+                f'CoordGeo({lat!r}, {lon!r}, {h!r}).cart(Ellipsoid({ell.semimaj!r}, {ell.inversef!r}))')
+
 
 if __name__ == '__main__':
     main('C03', run)
